@@ -179,6 +179,10 @@ fn solve_case(run: &Run, case_seed: u64, layout: (usize, usize)) {
             let mut seen = std::collections::BTreeSet::new();
             for is in res.report.issues.iter().filter(|i| !i.rule.starts_with("place-tag")) {
                 let sig = format!("C15|solve|invalid|{}", is.signature());
+                if let Some(what) = run.known_for(is.prop, &is.signature()) {
+                    run.known_hit(&sig, &format!("(listed under {}) {what}", is.prop));
+                    continue;
+                }
                 if seen.insert(sig.clone()) {
                     run.violation(&sig, &format!("layout {}: {}", shape.parallelism, clip(&is.detail, 300)), artefact(case_seed, &gp, &config, Some(&res.solution), json!({"rule": is.rule, "layout": shape.parallelism})));
                 }
